@@ -196,6 +196,76 @@ func CheckMetafile(rc *RunCtx, rec *BuildRec, label string) *Violation {
 			}
 		}
 	}
+	// an input that was read in this build was read by the bundler as a module or asset
+	// (a package.json or tsconfig.json that was only consulted is not an input)
+	loadedByBundler := map[string]bool{}
+	consultedOnly := map[string]bool{}
+	for _, op := range rec.Log {
+		if op.Kind == "readfile" && op.Err == "" {
+			if strings.Contains(op.Caller, "bundler.") && !strings.Contains(op.Caller, "resolver.") {
+				loadedByBundler[op.Path] = true
+			} else if strings.Contains(op.Caller, "resolver.") {
+				consultedOnly[op.Path] = true
+			}
+		}
+	}
+	for k := range mf.Inputs {
+		if strings.HasPrefix(k, "<") || (strings.Contains(k, ":") && !strings.HasPrefix(k, "/")) {
+			continue
+		}
+		pth := absOf(root, k)
+		if consultedOnly[pth] && !loadedByBundler[pth] && (strings.HasSuffix(pth, "/package.json") || strings.HasSuffix(pth, "/tsconfig.json")) {
+			return viol("input-only-consulted", "", "metafile lists %q as an input, but the build only consulted it for resolution and never loaded it as a module", k)
+		}
+	}
+	// resolved imports of inputs: kind and external flag, against the generator's model
+	if rec.Opts.Bundle {
+		for _, m := range rec.Model.Mods {
+			if m.Deleted || m.Broken || !isJS(m.Kind) || shadowed(rec.Model, m) {
+				continue
+			}
+			in, ok := mf.Inputs[inKey(m.Path)]
+			if !ok {
+				continue
+			}
+			for _, im := range m.Imports {
+				wantKind := "import-statement"
+				switch im.Style {
+				case ImpDynamic:
+					wantKind = "dynamic-import"
+				case ImpRequire:
+					wantKind = "require-call"
+				}
+				if im.Target < 0 {
+					if rec.Opts.Packages == api.PackagesExternal {
+						for _, x := range in.Imports {
+							if x.Path == im.Pkg {
+								rc.Probe("input_import_external_checked")
+								if !x.External {
+									return viol("external-flag-missing", "", "input %q imports package %q with Packages:external but the metafile does not flag the import as external", m.Path, im.Pkg)
+								}
+							}
+						}
+					}
+					continue
+				}
+				t := rec.Model.Mods[im.Target]
+				if t.Deleted || shadowed(rec.Model, t) {
+					continue
+				}
+				for _, x := range in.Imports {
+					if x.Path == inKey(t.Path) && !x.External {
+						rc.Probe("input_import_kind_checked")
+						// one module may import the same file in several ways only through edits of the
+						// model; the model keeps one import per target, so the kind is unambiguous
+						if x.Kind != wantKind {
+							return viol("import-kind", "", "input %q imports %q with a %s in its source, the metafile says kind %q", m.Path, t.Path, wantKind, x.Kind)
+						}
+					}
+				}
+			}
+		}
+	}
 	// the import statements of the emitted code agree with the outputs' "imports": a
 	// relative import that resolves to a file of this build is listed as a non-external
 	// import of that file, and no emitted file is reported as external
